@@ -15,13 +15,16 @@ structure StrictWeak (lt : α → α → Bool) : Prop where
 /-- non-decreasing w.r.t. `lt` -/
 def Sorted (lt : α → α → Bool) (l : List α) : Prop := l.Pairwise (fun a b => lt b a = false)
 
+/-- `std::merge` with `compare_pairs_by_first` and explicit fuel (structural recursion: evaluates in the kernel) -/
+def mergeF (lt : α → α → Bool) : Nat → List (α × Nat) → List (α × Nat) → List (α × Nat)
+  | _, [], r => r
+  | _, a :: l, [] => a :: l
+  | 0, a :: l, b :: r => a :: l ++ b :: r      -- unreachable with fuel = l.length + r.length
+  | f + 1, a :: l, b :: r =>
+    if lt b.1 a.1 then b :: mergeF lt f (a :: l) r else a :: mergeF lt f l (b :: r)
+
 /-- `std::merge` with `compare_pairs_by_first`: stable, takes from the second run only when strictly smaller -/
-def merge (lt : α → α → Bool) : List (α × Nat) → List (α × Nat) → List (α × Nat)
-  | [], r => r
-  | a :: l, [] => a :: l
-  | a :: l, b :: r =>
-    if lt b.1 a.1 then b :: merge lt (a :: l) r else a :: merge lt l (b :: r)
-termination_by l r => l.length + r.length
+def merge (lt : α → α → Bool) (l r : List (α × Nat)) : List (α × Nat) := mergeF lt (l.length + r.length) l r
 
 /-- `add(first, last, weight)`: the run `items` (already sorted by the caller) is merged into the view -/
 def add (lt : α → α → Bool) (view : List (α × Nat)) (items : List α) (w : Nat) : List (α × Nat) :=
